@@ -83,7 +83,7 @@ Definition model_out (c : case) : list out :=
       let p := params_of enc in let s := mk_store st in let r := mkRef ra rk in
       [out_of_lres id_list (traverse_file p s r); out_of_lres id_list (chunk_hashes_file p s r);
        out_of_lres sort_dedup (pyramid_file p s r)]
-  | CIter enc ra rk st _ _ =>
+  | CIter enc ra rk st _ _ _ =>
       let p := params_of enc in let s := mk_store st in let r := mkRef ra rk in
       [out_of_lres id_list (traverse_file p s r); out_of_lres id_list (chunk_hashes_file p s r);
        out_of_lres sort_dedup (lmap edges (iterate p s r))]
